@@ -55,16 +55,13 @@ class SecureTrashDirectories(TrashDirectories):
     def list_trash_dirs(self,
                         trash_dir_from_cli,  # type: Optional[str]
                         ):
-        from trashcli.trash_dirs_scanner import (
-            top_trash_dir_invalid_because_not_sticky,
-            top_trash_dir_invalid_because_parent_is_symlink)
+        from trashcli.trash_dirs_scanner import top_trash_dir_valid
         for path, volume in self.trash_directories.list_trash_dirs(
                 trash_dir_from_cli):
             if (not trash_dir_from_cli and
                     path == os.path.join(volume, '.Trash/%s' % self.uid) and
-                    self.top_trash_dir_rules.valid_to_be_read(path) in (
-                            top_trash_dir_invalid_because_not_sticky,
-                            top_trash_dir_invalid_because_parent_is_symlink)):
+                    self.top_trash_dir_rules.valid_to_be_read(path) !=
+                    top_trash_dir_valid):
                 continue
             yield path, volume
 
